@@ -252,6 +252,11 @@ type c05Eng struct {
 	// keeps denoting "the parameter after default normalisation" when the variable is later reused
 	// for a derived quantity (a count clamped to the lines that remain, ...).
 	shadow map[string]string
+	// ctx: helpers that have no proof of their own (their parameters carry facts only the callers know);
+	// they are always inlined, and the hooks run inside them while the caller's final pass is emitting
+	ctx      map[*FuncInfo]bool
+	ctxHooks []c05Hook
+	emitting bool
 }
 
 func newC05Eng(c *Ctx) *c05Eng {
@@ -817,7 +822,7 @@ func (e *c05Eng) prove(st *c05State, l c05Lin) bool {
 	e.budget = 3000
 	e.vcache = map[string]*c05Val{}
 	l = e.canon(st, l)
-	for d := 1; d <= 4; d++ {
+	for d := 1; d <= 5; d++ {
 		if e.proveD(st, l, d, 0, map[string]bool{}) {
 			return true
 		}
@@ -1796,6 +1801,13 @@ func (e *c05Eng) holds(st *c05State, g c05Goal) bool {
 // ---------------------------------------------------------------- syntactic store sets
 
 func (e *c05Eng) recvOf(fi *FuncInfo) types.Object {
+	if fi.Decl.Recv == nil && e.model != nil && fi.Pkg == e.pk {
+		// a plain helper function that is handed the terminal: func f(vt *Model, ...)
+		if _, obj := e.modelParam(fi); obj != nil {
+			return obj
+		}
+		return nil
+	}
 	if fi.Decl.Recv == nil || len(fi.Decl.Recv.List) != 1 || len(fi.Decl.Recv.List[0].Names) != 1 {
 		return nil
 	}
@@ -1811,6 +1823,29 @@ func (e *c05Eng) recvOf(fi *FuncInfo) types.Object {
 		return nil
 	}
 	return obj
+}
+
+// modelParam: index and object of the first *Model parameter of a function without receiver.
+func (e *c05Eng) modelParam(fi *FuncInfo) (int, types.Object) {
+	if fi.Decl.Recv != nil || fi.Decl.Type.Params == nil {
+		return -1, nil
+	}
+	i := 0
+	for _, f := range fi.Decl.Type.Params.List {
+		for _, nme := range f.Names {
+			obj := fi.Pkg.TypesInfo.Defs[nme]
+			if obj != nil {
+				if p, ok := obj.Type().(*types.Pointer); ok && types.Identical(p.Elem(), e.model) {
+					return i, obj
+				}
+			}
+			i++
+		}
+		if len(f.Names) == 0 {
+			i++
+		}
+	}
+	return -1, nil
 }
 
 func (e *c05Eng) newFrame(fi *FuncInfo, top bool) *c05Frame {
@@ -2022,6 +2057,8 @@ func (e *c05Eng) run(fr *c05Frame, entry *c05State) *c05State {
 	hasBack := func(b *cfg.Block) bool { return heads[b] }
 	saved := e.hooks
 	e.hooks = nil
+	wasEmitting := e.emitting
+	e.emitting = false
 	changed := true
 	for iter := 0; changed && iter < 60; iter++ {
 		changed = false
@@ -2061,14 +2098,21 @@ func (e *c05Eng) run(fr *c05Frame, entry *c05State) *c05State {
 		}
 	}
 	e.hooks = saved
+	e.emitting = wasEmitting
 	// final pass with hooks, collecting exits
+	useHooks := fr.top && len(e.hooks) > 0
+	if !fr.top && wasEmitting && e.ctx[fr.fi] && len(e.ctxHooks) > 0 {
+		useHooks = true
+		e.hooks = e.ctxHooks
+	}
+	defer func() { e.hooks = saved }()
 	var exit *c05State
 	firstExit := true
 	for _, b := range g.Blocks {
 		if !done[b] {
 			continue
 		}
-		outs := e.block(fr, b, in[b].clone(), fr.top && len(e.hooks) > 0)
+		outs := e.block(fr, b, in[b].clone(), useHooks)
 		if len(b.Succs) == 0 && g.isNormalExit(b) && len(outs) == 1 && outs[0] != nil {
 			if firstExit {
 				exit = outs[0]
@@ -2085,6 +2129,9 @@ func (e *c05Eng) run(fr *c05Frame, entry *c05State) *c05State {
 // (or a single state for an exit block).
 func (e *c05Eng) block(fr *c05Frame, b *cfg.Block, st *c05State, hooks bool) []*c05State {
 	saved := e.hooks
+	wasEmitting := e.emitting
+	e.emitting = hooks
+	defer func() { e.emitting = wasEmitting }()
 	for _, n := range b.Nodes {
 		if hooks {
 			for _, h := range saved {
@@ -2340,10 +2387,17 @@ func (e *c05Eng) callStmt(fr *c05Frame, st *c05State, call *ast.CallExpr) bool {
 func (e *c05Eng) inlineCall(fr *c05Frame, st *c05State, call *ast.CallExpr, fi *FuncInfo, wantValue bool) *c05Val {
 	cf := e.newFrame(fi, false)
 	summarise := false
-	if cf.recv != nil {
+	recvOK := true
+	if idx, _ := e.modelParam(fi); cf.recv != nil && idx >= 0 {
+		if idx >= len(call.Args) || e.pathKey(fr, call.Args[idx]) != "@" {
+			summarise = true
+			recvOK = false
+		}
+	} else if cf.recv != nil {
 		sel, ok := unparen(call.Fun).(*ast.SelectorExpr)
 		if !ok || e.pathKey(fr, sel.X) != "@" {
 			summarise = true
+			recvOK = false
 		}
 	} else if fi.Decl.Recv != nil {
 		return nil // method of another type: no tracked effects (erase, rune, ...)
@@ -2362,7 +2416,15 @@ func (e *c05Eng) inlineCall(fr *c05Frame, st *c05State, call *ast.CallExpr, fi *
 	if e.summariseAll && len(e.storesOf(fi)) > 0 {
 		summarise = true
 	}
-	if !wantValue && len(e.storesOf(fi)) == 0 {
+	if e.ctx[fi] && recvOK {
+		summarise = false
+		for _, s := range e.stack {
+			if s == fi {
+				summarise = true
+			}
+		}
+	}
+	if !wantValue && len(e.storesOf(fi)) == 0 && !(e.ctx[fi] && e.emitting) {
 		return nil // no receiver field is assigned (directly or transitively): nothing tracked changes
 	}
 	if !summarise && e.isGeoSetter(fi, map[*FuncInfo]bool{}) && !e.sameGeometryCaller(fr) {
@@ -2383,7 +2445,7 @@ func (e *c05Eng) inlineCall(fr *c05Frame, st *c05State, call *ast.CallExpr, fi *
 			arg := call.Args[i]
 			i++
 			pobj := cf.info.Defs[nme]
-			if pobj == nil || nme.Name == "_" {
+			if pobj == nil || nme.Name == "_" || pobj == cf.recv {
 				continue
 			}
 			pk := fmt.Sprintf("v%p", pobj)
@@ -2391,8 +2453,8 @@ func (e *c05Eng) inlineCall(fr *c05Frame, st *c05State, call *ast.CallExpr, fi *
 			pt := pobj.Type()
 			switch {
 			case isIntType(pt):
-				v := e.evalLin(st, e.linOf(fr, st, arg))
-				e.assignVal(st, pk, v)
+				// keeps the relation to the argument expression (pk == row+r) as facts
+				e.assignLin(st, pk, e.linOf(fr, st, arg))
 			case isStructType(pt):
 				if ak := e.pathKey(fr, arg); ak != "" {
 					for _, s := range c05IntLeaves(pt, 0) {
@@ -2680,15 +2742,239 @@ func c05RuleInvariant(c *Ctx, e *c05Eng) {
 			return false
 		})
 	}
-	c.expect("C05.b", 80)
-	c.expect("C05.c", 15)
-	c.expect("C05.g", 100)
+	c.expect("C05.b", 30)
+	c.expect("C05.c", 10)
+	c.expect("C05.g", 40)
 	goals := e.goals()
+	// Every function is first checked on its own (INV at entry, parameters >= 0). A helper whose
+	// proof needs what only its callers know (an extracted loop body taking a row, ...) is then
+	// checked in the context of each caller instead; if that fails as well, the stand-alone
+	// verdict is what is reported (stable keys).
+	standalone := c05InvRound(c, e, goals, map[*FuncInfo]bool{})
+	recs := standalone
+	failKeys := func(rs []c05Rec) map[string]bool {
+		m := map[string]bool{}
+		for _, r := range rs {
+			if !r.ok {
+				m[r.rule+"/"+r.key] = true
+			}
+		}
+		return m
+	}
+	fail0 := failKeys(standalone)
+	var cands []*FuncInfo
+	seenCand := map[*FuncInfo]bool{}
+	for _, r := range standalone {
+		if !r.ok && !seenCand[r.owner] && c05CtxEligible(c, e, r.owner) {
+			seenCand[r.owner] = true
+			cands = append(cands, r.owner)
+		}
+	}
+	// a helper is rescued if, checked inside its callers (and, where needed, their callers), no
+	// failure appears that the stand-alone round did not already have elsewhere
+	final := map[*FuncInfo]bool{}
+	for _, f := range cands {
+		if len(cands) > 6 {
+			break // a tree this broken is reported as it stands
+		}
+		cset := map[*FuncInfo]bool{f: true}
+		for depth := 0; depth < 3; depth++ {
+			rs := c05InvRound(c, e, goals, cset)
+			var fresh []c05Rec
+			for _, r := range rs {
+				if !r.ok && !fail0[r.rule+"/"+r.key] {
+					fresh = append(fresh, r)
+				}
+			}
+			if os.Getenv("C05_DEBUG") != "" {
+				for m := range cset {
+					fmt.Printf("DEBUG contextual attempt for %s: %s in context, %d new failures\n", f.Name, m.Name, len(fresh))
+				}
+			}
+			if len(fresh) == 0 {
+				for m := range cset {
+					final[m] = true
+				}
+				break
+			}
+			grew := false
+			for _, r := range fresh {
+				cand := r.owner
+				if r.ctx != nil {
+					cand = r.ctx
+				}
+				if !cset[cand] && c05CtxEligible(c, e, cand) && c05PackageCalls(c, e, cand) <= 12 {
+					cset[cand] = true
+					grew = true
+				}
+			}
+			if !grew {
+				break
+			}
+		}
+	}
+	if len(final) > 0 {
+		rs := c05InvRound(c, e, goals, final)
+		okAll := true
+		for k := range failKeys(rs) {
+			if !fail0[k] {
+				okAll = false
+			}
+		}
+		if okAll {
+			recs = rs
+		}
+	}
+	fields := map[string]bool{}
+	setters, grids := 0, 0
+	for _, r := range recs {
+		if r.ok {
+			c.ok(r.rule, r.key, r.pos, "%s", r.msg)
+		} else {
+			c.bad(r.rule, r.key, r.pos, "%s", r.msg)
+		}
+		for _, f := range []string{"cursor.row", "cursor.col", "margin.top", "margin.bottom"} {
+			if r.rule != "C05.g" && strings.Contains(r.key, "/"+f+" ") {
+				fields[f] = true
+			}
+		}
+		if r.rule == "C05.c" {
+			setters++
+		}
+		if r.rule == "C05.g" {
+			grids++
+		}
+	}
+	// what must exist semantically (instead of brittle instance counts)
+	for _, f := range []string{"cursor.row", "cursor.col", "margin.top", "margin.bottom"} {
+		if !fields[f] {
+			c.undecided("C05.b", "widgets/term/stores of "+f, 0, "no function was found that stores %s: the recogniser lost track of the emulator state", f)
+		}
+	}
+	if setters == 0 {
+		c.undecided("C05.c", "widgets/term/geometry setter", 0, "no function allocating the screens from its parameters was found")
+	}
+	if grids == 0 {
+		c.undecided("C05.g", "widgets/term/grid accesses", 0, "no index into a screen was found")
+	}
+}
+
+type c05Rec struct {
+	owner *FuncInfo // function whose code contains the construct / whose exit is checked
+	ctx   *FuncInfo // non-nil: checked while inlined into this function
+	rule  string
+	key   string
+	pos   token.Pos
+	ok    bool
+	msg   string
+}
+
+// c05CtxEligible: every use of the function is a direct call from a declared function of the
+// package (so the callers' contexts are all the contexts there are).
+func c05CtxEligible(c *Ctx, e *c05Eng, fi *FuncInfo) bool {
+	if fi == nil || fi.Obj.Exported() || fi.Pkg != e.pk {
+		return false
+	}
+	if r, _ := e.geoParams(fi); r != nil {
+		return false
+	}
+	parents := c.P.Parents(e.pk)
+	calls := 0
+	ok := true
+	for id, obj := range e.pk.TypesInfo.Uses {
+		if obj != types.Object(fi.Obj) {
+			continue
+		}
+		// the identifier must be the function part of a call
+		var n ast.Node = id
+		if sel, isSel := parents[id].(*ast.SelectorExpr); isSel && sel.Sel == id {
+			n = sel
+		}
+		call, isCall := parents[n].(*ast.CallExpr)
+		if !isCall || call.Fun != n {
+			ok = false
+			continue
+		}
+		inDecl := false
+		for cur := ast.Node(call); cur != nil; cur = parents[cur] {
+			if _, isLit := cur.(*ast.FuncLit); isLit {
+				break
+			}
+			if _, isGo := cur.(*ast.GoStmt); isGo {
+				break
+			}
+			if _, isDefer := cur.(*ast.DeferStmt); isDefer {
+				break
+			}
+			if _, isDecl := cur.(*ast.FuncDecl); isDecl {
+				inDecl = true
+				break
+			}
+		}
+		if !inDecl {
+			ok = false
+		}
+		calls++
+	}
+	return ok && calls > 0
+}
+
+// c05PackageCalls: number of calls into the package in the function's body (dispatchers are large).
+func c05PackageCalls(c *Ctx, e *c05Eng, fi *FuncInfo) int {
+	n := 0
+	if fi.Decl.Body == nil {
+		return 0
+	}
+	ast.Inspect(fi.Decl.Body, func(m ast.Node) bool {
+		if call, ok := m.(*ast.CallExpr); ok {
+			if fn := calleeOf(fi.Pkg.TypesInfo, call); fn != nil {
+				if cf := c.P.FuncOfObj(fn); cf != nil && cf.Pkg == e.pk {
+					n++
+				}
+			}
+		}
+		return true
+	})
+	return n
+}
+
+// effStores: the function's own stores plus those of the contextual helpers it calls.
+func (e *c05Eng) effStores(fi *FuncInfo, ctxSet map[*FuncInfo]bool, seen map[*FuncInfo]bool) map[string]bool {
+	out := map[string]bool{}
+	if seen[fi] || fi.Decl.Body == nil {
+		return out
+	}
+	seen[fi] = true
+	for k := range e.directStores(fi) {
+		out[k] = true
+	}
+	info := fi.Pkg.TypesInfo
+	ast.Inspect(fi.Decl.Body, func(n ast.Node) bool {
+		if call, ok := n.(*ast.CallExpr); ok {
+			if fn := calleeOf(info, call); fn != nil {
+				if cf := e.c.P.FuncOfObj(fn); cf != nil && ctxSet[cf] {
+					for k := range e.effStores(cf, ctxSet, seen) {
+						out[k] = true
+					}
+				}
+			}
+		}
+		return true
+	})
+	return out
+}
+
+// c05InvRound analyses every function not in ctxSet on its own and returns the obligations.
+func c05InvRound(c *Ctx, e *c05Eng, goals []c05Goal, ctxSet map[*FuncInfo]bool) []c05Rec {
+	var recs []c05Rec
+	e.ctx = ctxSet
+	defer func() { e.ctx = nil; e.ctxHooks = nil }()
 	for _, fi := range c05Funcs(c, e) {
 		fi := fi
-		fn := c05ShortFn(fi)
-		info := fi.Pkg.TypesInfo
-		stores := e.directStores(fi)
+		if ctxSet[fi] {
+			continue
+		}
+		stores := e.effStores(fi, ctxSet, map[*FuncInfo]bool{})
 		invDirect := false
 		for _, g := range goals {
 			if c05Relevant(stores, g.base) {
@@ -2702,6 +2988,17 @@ func c05RuleInvariant(c *Ctx, e *c05Eng) {
 		idxHook := func(e *c05Eng, fr *c05Frame, n ast.Node, st *c05State) {
 			if st == nil || st.env == nil {
 				return
+			}
+			info := fr.info
+			owner := fr.fi
+			fn := c05ShortFn(owner)
+			var cx *FuncInfo
+			if owner != fi {
+				cx = fi
+				fn = fmt.Sprintf("%s (called from %s)", c05ShortFn(owner), strings.TrimPrefix(c05ShortFn(fi), "widgets/term."))
+			}
+			add := func(rule, key string, pos token.Pos, ok bool, format string, args ...any) {
+				recs = append(recs, c05Rec{owner: owner, ctx: cx, rule: rule, key: key, pos: pos, ok: ok, msg: fmt.Sprintf(format, args...)})
 			}
 			inspectNoLit(n, func(m ast.Node) bool {
 				switch x := m.(type) {
@@ -2728,14 +3025,14 @@ func c05RuleInvariant(c *Ctx, e *c05Eng) {
 					hi := e.prove(s2, up)
 					val := e.showVal(e.evalLin(s2, idx))
 					if lo {
-						c.ok("C05.g", fmt.Sprintf("%s/%s: %s index >= 0", fn, ex, what), x.Pos(), "index %s is %s", e.showLin(idx), val)
+						add("C05.g", fmt.Sprintf("%s/%s: %s index >= 0", fn, ex, what), x.Pos(), true, "index %s is %s", e.showLin(idx), val)
 					} else {
-						c.bad("C05.g", fmt.Sprintf("%s/%s: %s index >= 0", fn, ex, what), x.Pos(), "the %s index %s can be negative (bounds: %s): index out of range panic on child output", what, e.showLin(idx), val)
+						add("C05.g", fmt.Sprintf("%s/%s: %s index >= 0", fn, ex, what), x.Pos(), false, "the %s index %s can be negative (bounds: %s): index out of range panic on child output", what, e.showLin(idx), val)
 					}
 					if hi {
-						c.ok("C05.g", fmt.Sprintf("%s/%s: %s index <= %s", fn, ex, what, lim), x.Pos(), "index %s is %s, length %s", e.showLin(idx), val, e.showLin(ln))
+						add("C05.g", fmt.Sprintf("%s/%s: %s index <= %s", fn, ex, what, lim), x.Pos(), true, "index %s is %s, length %s", e.showLin(idx), val, e.showLin(ln))
 					} else {
-						c.bad("C05.g", fmt.Sprintf("%s/%s: %s index <= %s", fn, ex, what, lim), x.Pos(), "the %s index %s is not bounded by the length %s (bounds: %s): index out of range panic on child output", what, e.showLin(idx), e.showLin(ln), val)
+						add("C05.g", fmt.Sprintf("%s/%s: %s index <= %s", fn, ex, what, lim), x.Pos(), false, "the %s index %s is not bounded by the length %s (bounds: %s): index out of range panic on child output", what, e.showLin(idx), e.showLin(ln), val)
 					}
 				case *ast.CallExpr:
 					// append(<[]column>, v): tab stops stay >= 0
@@ -2747,9 +3044,9 @@ func c05RuleInvariant(c *Ctx, e *c05Eng) {
 									l := e.linOf(fr, s2, a)
 									key := fmt.Sprintf("%s/tab stop %s >= 0", fn, types.ExprString(a))
 									if e.prove(s2, l.neg()) {
-										c.ok("C05.b", key, a.Pos(), "appended tab stop %s", e.showVal(e.evalLin(s2, l)))
+										add("C05.b", key, a.Pos(), true, "appended tab stop %s", e.showVal(e.evalLin(s2, l)))
 									} else {
-										c.bad("C05.b", key, a.Pos(), "a tab stop that may be negative is stored (%s): CBT/CHT then move the cursor to a negative column", e.showVal(e.evalLin(s2, l)))
+										add("C05.b", key, a.Pos(), false, "a tab stop that may be negative is stored (%s): CBT/CHT then move the cursor to a negative column", e.showVal(e.evalLin(s2, l)))
 									}
 								}
 							}
@@ -2762,8 +3059,8 @@ func c05RuleInvariant(c *Ctx, e *c05Eng) {
 						return true
 					}
 					cf := c.P.FuncOfObj(cal)
-					if cf == nil || cf.Pkg != e.pk {
-						return true
+					if cf == nil || cf.Pkg != e.pk || ctxSet[cf] {
+						return true // contextual helpers are checked with the actual arguments
 					}
 					sig := cal.Type().(*types.Signature)
 					for i := 0; i < sig.Params().Len() && i < len(x.Args); i++ {
@@ -2777,9 +3074,9 @@ func c05RuleInvariant(c *Ctx, e *c05Eng) {
 						l := e.linOf(fr, s2, x.Args[i])
 						key := fmt.Sprintf("%s/argument %s of %s >= 0", fn, sig.Params().At(i).Name(), cal.Name())
 						if e.prove(s2, l.neg()) {
-							c.ok("C05.b", key, x.Args[i].Pos(), "argument %s", e.showVal(e.evalLin(s2, l)))
+							add("C05.b", key, x.Args[i].Pos(), true, "argument %s", e.showVal(e.evalLin(s2, l)))
 						} else {
-							c.bad("C05.b", key, x.Args[i].Pos(), "%s is called with an argument that may be negative (%s); its clamps assume a non-negative count", cal.Name(), e.showVal(e.evalLin(s2, l)))
+							add("C05.b", key, x.Args[i].Pos(), false, "%s is called with an argument that may be negative (%s); its clamps assume a non-negative count", cal.Name(), e.showVal(e.evalLin(s2, l)))
 						}
 					}
 				}
@@ -2788,6 +3085,7 @@ func c05RuleInvariant(c *Ctx, e *c05Eng) {
 		}
 		t0 := time.Now()
 		e.hooks = []c05Hook{idxHook}
+		e.ctxHooks = []c05Hook{idxHook}
 		if d := os.Getenv("C05_TRACE"); d != "" && strings.HasSuffix(fi.Name, d) {
 			e.hooks = append(e.hooks, func(e *c05Eng, fr *c05Frame, n ast.Node, st *c05State) {
 				var sb strings.Builder
@@ -2805,6 +3103,7 @@ func c05RuleInvariant(c *Ctx, e *c05Eng) {
 		_, exit := e.analyse(fi, nil)
 		e.summariseAll = false
 		e.hooks = nil
+		e.ctxHooks = nil
 		if os.Getenv("C05_DEBUG") != "" {
 			fmt.Printf("DEBUG time %s %v\n", fi.Name, time.Since(t0))
 		}
@@ -2817,6 +3116,7 @@ func c05RuleInvariant(c *Ctx, e *c05Eng) {
 		if callsSetter {
 			continue
 		}
+		fn := c05ShortFn(fi)
 		doneWhat := map[string]bool{}
 		for _, g := range goals {
 			if doneWhat[g.what] {
@@ -2831,12 +3131,13 @@ func c05RuleInvariant(c *Ctx, e *c05Eng) {
 			}
 			key := fmt.Sprintf("%s/%s", fn, g.what)
 			if e.holds(exit, g) {
-				c.ok(rule, key, fi.Decl.Pos(), "holds at every exit: %s is %s", e.show(g.key), e.showVal(e.valOf(exit, g.key)))
+				recs = append(recs, c05Rec{owner: fi, rule: rule, key: key, pos: fi.Decl.Pos(), ok: true, msg: fmt.Sprintf("holds at every exit: %s is %s", e.show(g.key), e.showVal(e.valOf(exit, g.key)))})
 			} else {
-				c.bad(rule, key, fi.Decl.Pos(), "%s is not re-established at exit (%s is %s): %s", g.what, e.show(g.key), e.showVal(e.valOf(exit, g.key)), g.fails)
+				recs = append(recs, c05Rec{owner: fi, rule: rule, key: key, pos: fi.Decl.Pos(), ok: false, msg: fmt.Sprintf("%s is not re-established at exit (%s is %s): %s", g.what, e.show(g.key), e.showVal(e.valOf(exit, g.key)), g.fails)})
 			}
 		}
 	}
+	return recs
 }
 
 // ---------------------------------------------------------------- C05.a events / blocking under the lock
@@ -2936,7 +3237,7 @@ func c05Blocking(info *types.Info, parents map[ast.Node]ast.Node, body ast.Node)
 }
 
 func c05RuleEvents(c *Ctx, e *c05Eng) {
-	c.expect("C05.a", 10)
+	c.expect("C05.a", 3)
 	pk := e.pk
 	info := pk.TypesInfo
 	parents := c.P.Parents(pk)
@@ -3149,7 +3450,7 @@ func c05HoldsMu(e *c05Eng, fi *FuncInfo) bool {
 // ---------------------------------------------------------------- C05.d parameters cannot overflow
 
 func c05RuleParams(c *Ctx) {
-	c.expect("C05.d", 3)
+	c.expect("C05.d", 2)
 	fi := c.P.Func("ansi.(*Parser).csiDispatch")
 	if fi == nil {
 		c.undecided("C05.d", "ansi.(*Parser).csiDispatch", 0, "csiDispatch not found")
@@ -3232,7 +3533,7 @@ func c05RuleParams(c *Ctx) {
 // ---------------------------------------------------------------- C05.e Draw stays inside its window
 
 func c05RuleDraw(c *Ctx, e *c05Eng) {
-	c.expect("C05.e", 6)
+	c.expect("C05.e", 3)
 	fi := c.P.Func("widgets/term.(*Model).Draw")
 	if fi == nil {
 		c.undecided("C05.e", "widgets/term.(*Model).Draw", 0, "Draw not found")
@@ -3399,7 +3700,7 @@ func c05RuleRecover(c *Ctx, e *c05Eng) {
 // ---------------------------------------------------------------- C05.h vt.vx only under a nil test
 
 func c05RuleVx(c *Ctx, e *c05Eng) {
-	c.expect("C05.h", 2)
+	c.expect("C05.h", 1)
 	mst, _ := e.model.Underlying().(*types.Struct)
 	var vxField *types.Var
 	for i := 0; mst != nil && i < mst.NumFields(); i++ {
